@@ -74,6 +74,7 @@ def run(cx: Cx):
             reported.add(missing)
             cx.violation(rule, fn.qualname, missing, msg, where=where, **kw)
 
+    roles = {'model_cls': 'model_cls', 'item': 'kwargs', 'collectors': 'collectors', 'limit': 'max_timesteps'}
     facts = {'serial': set(), 'pool': set()}
     from .common import _loop_stage_table
     table = _loop_stage_table(paths)
@@ -120,7 +121,13 @@ def run(cx: Cx):
                      cx.where(fn))
                 continue
             b = pb[1]
-            want = {'model_cls': Sym('model_cls'), 'kwargs': Sym('<item>'), 'collectors': Sym('collectors'), 'max_timesteps': Sym('max_timesteps')}
+            # the worker's parameters are identified by what the front-end binds to them, not by their names
+            inv = {t: k for k, t in b.items() if isinstance(t, Sym)}
+            want = {inv.get(Sym('model_cls'), 'model_cls'): Sym('model_cls'), inv.get(Sym('<item>'), 'kwargs'): Sym('<item>'),
+                    inv.get(Sym('collectors'), 'collectors'): Sym('collectors'), inv.get(Sym('max_timesteps'), 'max_timesteps'): Sym('max_timesteps')}
+            if len(want) == 4 and all(x in inv for x in (Sym('model_cls'), Sym('<item>'), Sym('collectors'), Sym('max_timesteps'))):
+                roles.update(model_cls=inv[Sym('model_cls')], item=inv[Sym('<item>')], collectors=inv[Sym('collectors')],
+                             limit=inv[Sym('max_timesteps')])
             bad = {k: repr(b.get(k)) for k, v in want.items() if b.get(k) != v}
             if bad:
                 viol('R-FWD', 'partial-binds-each-parameter', f"the worker partial binds {bad}; expected model_cls positional, collectors "
@@ -135,17 +142,20 @@ def run(cx: Cx):
             viol('R-SIB', 'arms-agree', f"the serial and pool arms disagree on (callable, work list, result list): {facts}", cx.where(fn))
 
     # ------------------------------------------------------------ the per-run worker
-    check_driver_loop(cx, runf, ['model_cls', 'kwargs'])
-    coll = Sym('collectors')
+    check_driver_loop(cx, runf, [roles['model_cls'], roles['item']], limit=roles['limit'])
+    coll = Sym(roles['collectors'])
+    kws, clss = Sym(roles['item']), Sym(roles['model_cls'])
+    built = (App('call', (clss,), (('**', kws),)), App('new:' + CORE + 'Model', (), (('**', kws), ('<cls>', clss))))
     seen = set()
     wpaths = cx.walker.paths(runf, WalkOptions(unroll=1, callee_raises=False))
     for p in wpaths:
         if p.end == 'raise':
             continue
-        v = p.last.data.get('value') if p.end == 'return' else Const(None)
-        models = {e.data.get('value') for e in p.events if e.kind == 'assign' and e.data.get('name') == 'model'}
-        model = next(iter(models)) if len(models) == 1 else None
-        systems = Attr(model, 'systems') if model is not None else None
+        v = strip_versions(p.last.data.get('value')) if p.end == 'return' else Const(None)
+        # the model of this call: the one built from the caller's class and combination that occurs on the path
+        on_path = [m for m in built if any(strip_versions(e.data.get('result')) == m for e in p.events if e.kind == 'call')]
+        model = on_path[0] if on_path else built[0]
+        systems = Attr(model, 'systems')
         where = cx.where(runf, p.last.line if p.last else None)
         if implies(p.cond, AIs(coll, Const(None))) is None:
             seen.add('none')
@@ -164,7 +174,7 @@ def run(cx: Cx):
             lf = list_facts(wpaths, p, v, lambda s: strip_versions(s) == coll) if isinstance(v, Fresh) else None
             if lf is not None and lf.ok and lf.key is not None and lf.base_var is not None and lf.cond == FTrue:
                 tgt = lf.base_var
-                if lf.key in (Attr(Sub(systems, tgt), 'id'), tgt) and lf.elem == Attr(Sub(systems, tgt), 'records'):
+                if strip_versions(lf.key) in (Attr(Sub(systems, tgt), 'id'), tgt) and strip_versions(lf.elem) == Attr(Sub(systems, tgt), 'records'):
                     good = True
             if not good:
                 cx.violation('R-GUARD', runf.qualname, 'returns-own-records-per-collector',
